@@ -473,6 +473,35 @@ Proof.
   rewrite (cstr_id s H1), (takeN_all s 63%N H2), H3, H4. reflexivity.
 Qed.
 
+Lemma rem_eqb0 a b : b <> 0 -> (Z.rem a b =? 0) = (a mod b =? 0).
+Proof.
+  intros Hb. destruct (Z.rem a b =? 0) eqn:E1; destruct (a mod b =? 0) eqn:E2; try reflexivity.
+  - apply Z.eqb_eq in E1. apply Z.eqb_neq in E2. exfalso. apply E2.
+    apply Z.mod_divide; [exact Hb|]. apply Z.rem_divide; assumption.
+  - apply Z.eqb_neq in E1. apply Z.eqb_eq in E2. exfalso. apply E1.
+    apply Z.rem_divide; [exact Hb|]. apply Z.mod_divide; assumption.
+Qed.
+
+Lemma c_leap_eq y : c_leap y = is_leap y.
+Proof.
+  unfold c_leap, is_leap. rewrite !rem_eqb0 by lia.
+  destruct (y mod 4 =? 0) eqn:E4; destruct (y mod 100 =? 0) eqn:E100; destruct (y mod 400 =? 0) eqn:E400;
+    cbn [negb andb orb]; try reflexivity; exfalso; lia_div.
+Qed.
+
+Lemma sane_eq y mon d hh mm ss w : 0 <= mon < 12 ->
+  tm_sane (mkTm (y - 1900) mon d hh mm ss w) =
+  valid_date y (mon + 1) d && in_range 0 23 hh && in_range 0 59 mm && in_range 0 59 ss.
+Proof.
+  intros Hm. unfold tm_sane. cbn [tm_year tm_mon tm_mday tm_hour tm_min tm_sec].
+  replace (1900 + (y - 1900)) with y by lia. rewrite c_leap_eq.
+  assert (Hc : mon = 0 \/ mon = 1 \/ mon = 2 \/ mon = 3 \/ mon = 4 \/ mon = 5 \/ mon = 6 \/ mon = 7 \/
+               mon = 8 \/ mon = 9 \/ mon = 10 \/ mon = 11) by lia.
+  unfold valid_date, month_len, in_range.
+  repeat (destruct Hc as [Hc|Hc]); subst mon; vm_compute nth_z;
+    cbn [Z.add Z.eqb Pos.add Pos.succ Pos.eqb orb]; destruct (is_leap y); lia.
+Qed.
+
 Lemma finish dd mn yy zone y mon d hh mm ss :
   match zone with Some z => z = GMT | None => True end ->
   atoi dd = d -> make_month mn = mon -> 0 <= mon < 12 -> year_rule yy = y - 1900 ->
@@ -483,10 +512,9 @@ Proof.
   intros Hz Hd Hm Hmr Hy Hh Hmm Hs.
   destruct (tod_facts hh mm ss Hh Hmm Hs) as (_ & T2 & T3 & T4 & T5 & T6).
   rewrite (elements_eq dd mn yy _ zone d mon (y - 1900) hh mm ss _ _ _ _ Hz Hd Hm ltac:(lia) Hy T2 T3 T4 T5 T6).
-  unfold form_answer.
-  destruct (tm_sane (mkTm (y - 1900) mon d hh mm ss 0)) eqn:E1;
-    destruct (in_range 1 31 d && in_range 0 23 hh && in_range 0 59 mm && in_range 0 59 ss) eqn:E2;
-    unfold tm_sane, in_range in E1, E2; cbn [tm_year tm_mon tm_mday tm_hour tm_min tm_sec] in E1; try lia.
+  rewrite (sane_eq y mon d hh mm ss 0 Hmr).
+  unfold form_answer, denoted_time.
+  destruct (valid_date y (mon + 1) d && in_range 0 23 hh && in_range 0 59 mm && in_range 0 59 ss); [|reflexivity].
   unfold timegm. cbn [tm_year tm_mon tm_mday tm_hour tm_min tm_sec].
   replace (y - 1900 + 1900) with y by lia. reflexivity.
 Qed.
@@ -704,24 +732,24 @@ Qed.
 
 Lemma denoted_accepted y m d hh mm ss t :
   denoted_time y m d hh mm ss = Some t -> form_answer y m d hh mm ss = t.
+Proof. intros H. unfold form_answer. rewrite H. reflexivity. Qed.
+
+Lemma denoted_valid y m d hh mm ss t : denoted_time y m d hh mm ss = Some t -> valid_date y m d = true.
 Proof.
-  unfold denoted_time, form_answer. pose proof (month_len_le31 y m) as H31.
-  destruct (valid_date y m d && in_range 0 23 hh && in_range 0 59 mm && in_range 0 59 ss) eqn:E; [|discriminate].
-  intros H. injection H as <-.
-  apply andb_prop in E. destruct E as [E E4]. apply andb_prop in E. destruct E as [E E3].
-  apply andb_prop in E. destruct E as [E1 E2]. rewrite E2, E3, E4.
-  unfold valid_date in E1. apply andb_prop in E1. destruct E1 as [_ E1].
-  assert (Ed : in_range 1 31 d = true) by (unfold in_range in *; lia). rewrite Ed. reflexivity.
+  unfold denoted_time. destruct (valid_date y m d); [reflexivity|]. cbn [andb]. discriminate.
 Qed.
 
 Lemma answer_denotes y m d hh mm ss t :
-  form_answer y m d hh mm ss = t -> t <> -1 -> valid_date y m d = true -> denoted_time y m d hh mm ss = Some t.
+  form_answer y m d hh mm ss = t -> t <> -1 ->
+  valid_date y m d = true /\ denoted_time y m d hh mm ss = Some t.
 Proof.
-  unfold denoted_time, form_answer. intros H Hne Hv. rewrite Hv.
-  destruct (in_range 1 31 d && in_range 0 23 hh && in_range 0 59 mm && in_range 0 59 ss) eqn:E; [|congruence].
-  apply andb_prop in E. destruct E as [E E4]. apply andb_prop in E. destruct E as [E E3].
-  apply andb_prop in E. destruct E as [E1 E2]. rewrite E2, E3, E4. cbn [andb]. f_equal. exact H.
+  unfold form_answer. intros H Hne.
+  destruct (denoted_time y m d hh mm ss) as [t'|] eqn:E; [|congruence].
+  subst t'. split; [exact (denoted_valid _ _ _ _ _ _ _ E)|reflexivity].
 Qed.
+
+Lemma answer_rejects y m d hh mm ss : valid_date y m d = false -> form_answer y m d hh mm ss = -1.
+Proof. intros H. unfold form_answer, denoted_time. rewrite H. reflexivity. Qed.
 
 Theorem format_parse_roundtrip t : 0 <= t < 253402300800 -> ParseRfc1123 (FormatRfc1123 t) = t.
 Proof.
@@ -731,22 +759,28 @@ Qed.
 
 Theorem imf_denotes wd d mon y hh mm ss t :
   0 <= wd < 7 -> 0 <= d < 100 -> 0 <= mon < 12 -> 0 <= y < 10000 -> 0 <= hh < 100 -> 0 <= mm < 100 -> 0 <= ss < 100 ->
-  ParseRfc1123 (imf_fixdate wd d mon y hh mm ss) = t -> t <> -1 -> valid_date y (mon + 1) d = true ->
-  denoted_time y (mon + 1) d hh mm ss = Some t.
+  ParseRfc1123 (imf_fixdate wd d mon y hh mm ss) = t -> t <> -1 ->
+  valid_date y (mon + 1) d = true /\ denoted_time y (mon + 1) d hh mm ss = Some t.
 Proof. intros. apply answer_denotes; try assumption. rewrite <- imf_answer with (wd := wd); assumption. Qed.
 
 Theorem rfc850_denotes wd d mon yy hh mm ss t :
   0 <= wd < 7 -> 0 <= d < 100 -> 0 <= mon < 12 -> 0 <= yy < 100 -> 0 <= hh < 100 -> 0 <= mm < 100 -> 0 <= ss < 100 ->
-  ParseRfc1123 (rfc850_date wd d mon yy hh mm ss) = t -> t <> -1 -> valid_date (yy_year yy) (mon + 1) d = true ->
-  denoted_time (yy_year yy) (mon + 1) d hh mm ss = Some t.
+  ParseRfc1123 (rfc850_date wd d mon yy hh mm ss) = t -> t <> -1 ->
+  valid_date (yy_year yy) (mon + 1) d = true /\ denoted_time (yy_year yy) (mon + 1) d hh mm ss = Some t.
 Proof. intros. apply answer_denotes; try assumption. rewrite <- rfc850_answer with (wd := wd); assumption. Qed.
 
 Theorem asctime_denotes wd mon d two hh mm ss y t :
   0 <= wd < 7 -> 0 <= mon < 12 -> (if two : bool then 0 <= d < 100 else 0 <= d < 10) -> 0 <= y < 10000 ->
   0 <= hh < 100 -> 0 <= mm < 100 -> 0 <= ss < 100 ->
-  ParseRfc1123 (asctime_date wd mon d two hh mm ss y) = t -> t <> -1 -> valid_date y (mon + 1) d = true ->
-  denoted_time y (mon + 1) d hh mm ss = Some t.
+  ParseRfc1123 (asctime_date wd mon d two hh mm ss y) = t -> t <> -1 ->
+  valid_date y (mon + 1) d = true /\ denoted_time y (mon + 1) d hh mm ss = Some t.
 Proof. intros. apply answer_denotes; try assumption. rewrite <- asctime_answer with (wd := wd) (two := two); assumption. Qed.
+
+(* a string of the IMF-fixdate form naming a day that does not exist is rejected *)
+Theorem imf_nonexistent_day_rejected wd d mon y hh mm ss :
+  0 <= wd < 7 -> 0 <= d < 100 -> 0 <= mon < 12 -> 0 <= y < 10000 -> 0 <= hh < 100 -> 0 <= mm < 100 -> 0 <= ss < 100 ->
+  valid_date y (mon + 1) d = false -> ParseRfc1123 (imf_fixdate wd d mon y hh mm ss) = -1.
+Proof. intros. rewrite imf_answer by assumption. apply answer_rejects. assumption. Qed.
 
 (* every string of the three forms that denotes a time is accepted, with that time *)
 Theorem forms_accepted wd d mon y hh mm ss t :
@@ -763,13 +797,3 @@ Proof.
   - intros yy Hyy Hyr. rewrite rfc850_answer by assumption. rewrite Hyr. exact Ha.
 Qed.
 
-(* the unrestricted statement is false: 30 Feb 2000 is accepted and lands on 1 Mar 2000 *)
-Theorem accepted_nonexistent_day :
-  exists wd d mon y hh mm ss t,
-    (0 <= wd < 7 /\ 0 <= d < 100 /\ 0 <= mon < 12 /\ 0 <= y < 10000 /\ 0 <= hh < 100 /\ 0 <= mm < 100 /\ 0 <= ss < 100) /\
-    ParseRfc1123 (imf_fixdate wd d mon y hh mm ss) = t /\ t <> -1 /\
-    denoted_time y (mon + 1) d hh mm ss = None /\
-    denoted_time y (mon + 2) 1 hh mm ss = Some t.
-Proof.
-  exists 3, 30, 1, 2000, 0, 0, 0, 951868800. repeat split; try lia; vm_compute; congruence.
-Qed.
